@@ -5,7 +5,7 @@ from pyvc.schema import Int, Bool, Const, Bytes, ByteArray, ListOf, Obj, Opt, On
 from pyvc.specrt import implies, ite
 
 
-def radio_schema(ce=None, plain=False, env=None):
+def radio_schema(ce=None, plain=False, env=None, share="hw"):
     f = {
         "reg": ListOf([Int(0, 255) for _ in range(0x1E)]),
         "addr0": ByteArray(5, 5), "addr1": ByteArray(5, 5), "txaddr": ByteArray(5, 5),
@@ -26,14 +26,14 @@ def radio_schema(ce=None, plain=False, env=None):
     }
     if env:
         f.update(env)
-    return Share("hw", Obj("spec.hw:Radio", f))
+    return Share(share, Obj("spec.hw:Radio", f))
 
 
-def rf24_schema(cls="rf24:RF24", p0=None, extra=None, env=None):
+def rf24_schema(cls="rf24:RF24", p0=None, extra=None, env=None, share="hw"):
     fields = {
         "_in": ByteArray(97, 97), "_out": ByteArray(97, 97),
-        "_ce_pin": Obj("spec.hw:Pin", {"hw": radio_schema(env=env)}),
-        "_spi": Obj("spec.hw:SpiStub", {"hw": radio_schema(env=env)}),
+        "_ce_pin": Obj("spec.hw:Pin", {"hw": radio_schema(env=env, share=share)}),
+        "_spi": Obj("spec.hw:SpiStub", {"hw": radio_schema(env=env, share=share)}),
         "_pipes": ListOf([ByteArray(5, 5), ByteArray(5, 5), Int(0, 255), Int(0, 255), Int(0, 255), Int(0, 255)]),
         "_config": Int(0, 255), "_open_pipes": Int(0, 255), "_is_plus_variant": Const(True),
         "_features": Int(0, 255),
